@@ -2,6 +2,7 @@ package main
 
 import (
 	"bufio"
+	"bytes"
 	"encoding/json"
 	"fmt"
 	"os"
@@ -9,6 +10,7 @@ import (
 	"runtime/debug"
 	"strings"
 	"time"
+	"unicode/utf8"
 
 	"github.com/jsightapi/jsight-schema-core/fs"
 
@@ -25,6 +27,7 @@ type buildOut struct {
 	Site    string          `json:"site,omitempty"` // first frame of this repository in the panic's stack
 	JSON    json.RawMessage `json:"json,omitempty"`
 	JSONErr string          `json:"jsonerr,omitempty"`
+	Indent  string          `json:"indent,omitempty"` // "" = ToJsonIndent agrees with ToJson up to whitespace; else what differs
 	Ms      float64         `json:"ms"`
 }
 
@@ -110,6 +113,20 @@ func buildOne(tc *treeCase) (out buildOut) {
 		return out
 	}
 	out.JSON = json.RawMessage(b)
+	if !utf8.Valid(b) {
+		out.Indent = "ToJson is not valid UTF-8"
+	}
+	bi, ei := j.ToJsonIndent()
+	if ei != nil {
+		out.Indent = "ToJsonIndent failed: " + ei.Error()
+	} else {
+		var c1, c2 bytes.Buffer
+		if e1, e2 := json.Compact(&c1, b), json.Compact(&c2, bi); e1 != nil || e2 != nil {
+			out.Indent = "not well-formed JSON"
+		} else if c1.String() != c2.String() {
+			out.Indent = "ToJsonIndent differs from ToJson beyond whitespace"
+		}
+	}
 	return out
 }
 
